@@ -147,10 +147,12 @@ def run_history(cfg):
     H = lambda xs: ' '.join(C.f2h(x) for x in np.asarray(xs, dtype=float).reshape(-1))
     lines = ['arm.new %s %s %s %s %s %s' % (C.f2h(spec.n), H(armh.T6(spec.base6)), H(spec.M), H(spec.S.T), H(spec.mins), H(spec.maxs))]
     states = [(arm.getEEPos().gTM(), arm.getBasePos().gTM(), np.asarray(arm._theta, dtype=float).reshape(-1).copy(), False)]
+    ill_hist = [False]
     for op in cfg['ops']:
         if viol:
             break
         steps += 1
+        ee_before = arm.getEEPos().gTM().copy()
         try:
             v = apply(arm, tr, op, rnd)
         except Exception as e:
@@ -173,7 +175,15 @@ def run_history(cfg):
         else:
             lines.append('arm.op restore')
         tiny = bool(np.any((np.abs(th_now) > 0) & (np.abs(th_now) < 2e-6)))
-        states.append((arm.getEEPos().gTM(), arm.getBasePos().gTM(), th_now, tiny))
+        # the tool-frame operations go through MatrixLog3 (tm objects): next to a half turn the logarithm amplifies rounding by
+        # 1/(pi - angle)^2, and next to the 1e-6 cut-off the exponential is discontinuous; the model (same algorithm, other
+        # rounding) may then legitimately differ by more than 1e-8 — such histories are not compared from that point on
+        if k in ('setHome', 'restore', 'move', 'moveS'):
+            for T_ in (arm._end_effector_home.gTM(), arm._end_effector_home_local.gTM(), arm.getBasePos().gTM(), arm.getEEPos().gTM(), ee_before):
+                ang_ = math.acos(max(-1.0, min(1.0, (np.trace(T_[:3, :3]) - 1) / 2)))
+                if math.pi - ang_ < 3e-3 or (0 < ang_ < 3e-6):
+                    ill_hist[0] = True
+        states.append((arm.getEEPos().gTM(), arm.getBasePos().gTM(), th_now, tiny or ill_hist[0]))
     run_history.last = (lines, states)
     return viol, steps
 
